@@ -30,6 +30,7 @@ type Case struct {
 	Fns      []Fn   `json:"fns"`
 	CancelAt int    `json:"cancel_at"`          // -1 never; 0 before the call; k>0 after k grants
 	Deadline bool   `json:"deadline,omitempty"` // the caller's context ends like a deadline: its Err() is DeadlineExceeded
+	Own      bool   `json:"own,omitempty"`      // the caller's context is a type of its own (derived contexts hear of its end through a goroutine)
 	Sched    []byte `json:"sched"`
 }
 
@@ -46,6 +47,7 @@ func genCase(t *rapid.T) Case {
 	if rapid.IntRange(0, 2).Draw(t, "cancels") == 0 {
 		c.CancelAt = rapid.IntRange(0, 30).Draw(t, "cancel_at")
 		c.Deadline = rapid.IntRange(0, 2).Draw(t, "deadline") == 0
+		c.Own = !c.Deadline && rapid.IntRange(0, 2).Draw(t, "own") == 0
 	}
 	c.Sched = sched.GenSchedule(t, ev.Pick(100, 300))
 	return c
@@ -146,6 +148,9 @@ func body(c *sched.Ctl, cs Case, v *ev.Verdict) {
 	ctx, cancel := context.WithCancel(context.Background())
 	if cs.Deadline {
 		ctx = deadlineLike{ctx}
+	}
+	if cs.Own {
+		ctx, cancel = newOwnCtx()
 	}
 	callerCancelled := false
 	if cs.CancelAt == 0 {
@@ -344,6 +349,35 @@ func body(c *sched.Ctl, cs Case, v *ev.Verdict) {
 // closes and Err reports context.DeadlineExceeded (its children are cancelled
 // as usual). CallConcurrently must still answer context.Canceled.
 type deadlineLike struct{ context.Context }
+
+// ownCtx is a caller-defined context type: context.WithCancel(ownCtx) has to watch its Done
+// channel from a goroutine, so a derived context is cancelled a little after the parent.
+type ownCtx struct {
+	context.Context
+	mu   sync.Mutex
+	done chan struct{}
+	err  error
+}
+
+func newOwnCtx() (context.Context, context.CancelFunc) {
+	c := &ownCtx{Context: context.Background(), done: make(chan struct{})}
+	return c, func() {
+		c.mu.Lock()
+		if c.err == nil {
+			c.err = context.Canceled
+			close(c.done)
+		}
+		c.mu.Unlock()
+	}
+}
+
+func (c *ownCtx) Done() <-chan struct{} { return c.done }
+
+func (c *ownCtx) Err() error {
+	c.mu.Lock()
+	defer c.mu.Unlock()
+	return c.err
+}
 
 func (d deadlineLike) Err() error {
 	if d.Context.Err() != nil {
